@@ -1,0 +1,39 @@
+//go:build verif
+// +build verif
+
+package mod_cors
+
+import (
+	"github.com/bfenetworks/bfe/bfe_basic"
+	"github.com/bfenetworks/bfe/bfe_http"
+	"github.com/bfenetworks/bfe/bfe_module"
+)
+
+// VerifRun drives the two CORS handlers the way the server pipeline does, for the out-of-tree
+// verification harness: the raw rules go through the real ruleListConvert and are installed for
+// req.Route.Product (when hasRules); corsPreflightHandler runs first; when it answers, its response
+// header is returned with kind "P"; otherwise corsHandler runs on a response carrying the backend header
+// and that header is returned with kind "N".
+func VerifRun(hasRules bool, raw RuleRawList, req *bfe_basic.Request, backend bfe_http.Header) (string, bfe_http.Header, error) {
+	m := NewModuleCors()
+	if hasRules {
+		rules, err := ruleListConvert(raw)
+		if err != nil {
+			return "", nil, err
+		}
+		conf := &CorsRuleConf{Version: "verif", Config: ProductRuleList{req.Route.Product: rules}}
+		m.ruleTable.Update(conf)
+	}
+	ret, resp := m.corsPreflightHandler(req)
+	if ret == bfe_module.BfeHandlerResponse && resp != nil {
+		return "P", resp.Header, nil
+	}
+	if ret != bfe_module.BfeHandlerGoOn {
+		return "?", nil, nil
+	}
+	resp = &bfe_http.Response{StatusCode: 200, Header: backend}
+	if m.corsHandler(req, resp) != bfe_module.BfeHandlerGoOn {
+		return "?", nil, nil
+	}
+	return "N", resp.Header, nil
+}
